@@ -119,6 +119,8 @@ EncodeValue(e) ==
     /\ Chk(e, "C15", "bytes_independent_of_time_zone", spec.ok => (okc /\ e.out.b = spec.b))
     /\ Chk(e, "C15", "decoded_instant_is_utc", (spec.ok /\ okc) => (e.dec.r = "ok" /\ SameValue(e.dec.v, want)))
     /\ Chk(e, "C16", "concurrent_encode_is_pure", (spec.ok => (okc /\ e.out.b = spec.b)) /\ (~spec.ok => ~okc))
+    /\ Chk(e, "C16", "decode_depends_only_on_the_bytes",
+           (dom03 /\ okc) => (e.dec.r = "ok" /\ e.dec.n = Len(e.out.b) /\ SameValue(e.dec.v, want)))
     \* C12: deterministic, input untouched, keys ascending at every level
     /\ Chk(e, "C12", "second_encoding_identical", okc => (e.out2.r = "ok" /\ e.out2.b = e.out.b))
     /\ Chk(e, "C12", "input_not_mutated", e.post = e.in)
